@@ -211,6 +211,8 @@ fn mk(kind: &str) -> DynC {
     match kind {
         "rec1" | "rec2" | "rec3" => rec(kind.to_string()),
         "dflt" => DynC(Box::new(completion::default(RT.emitter(), RT.ctxt()))),
+        "dfltl" => DynC(Box::new(completion::default(RT.emitter(), RT.ctxt()).with_lvl(Level::Info))),
+        "dfltp" => DynC(Box::new(completion::default(RT.emitter(), RT.ctxt()).with_panic_lvl(Level::Warn))),
         "dfltL" => DynC(Box::new(
             completion::default(RT.emitter(), RT.ctxt()).with_lvl(Level::Info).with_panic_lvl(Level::Warn),
         )),
@@ -346,6 +348,8 @@ fn terminal<T: Clock, P: Props, F: Completion>(g: SpanGuard<'static, T, P, F>, o
         "CompleteWith" => Some(match a {
             "rec3" => cw(g, rec_typed("rec3"), pan),
             "dflt" => cw(g, completion::default(RT.emitter(), RT.ctxt()), pan),
+            "dfltl" => cw(g, completion::default(RT.emitter(), RT.ctxt()).with_lvl(Level::Info), pan),
+            "dfltp" => cw(g, completion::default(RT.emitter(), RT.ctxt()).with_panic_lvl(Level::Warn), pan),
             "dfltL" => cw(g, completion::default(RT.emitter(), RT.ctxt()).with_lvl(Level::Info).with_panic_lvl(Level::Warn), pan),
             "ok" => cw(g, emit::__private::__private_complete_span_ok(&RT, emit::Template::literal("t"), Some(&Level::Debug)), pan),
             "err" => cw(g, emit::__private::__private_complete_span_err(&RT, emit::Template::literal("t"), &Level::Warn, leaked_err()), pan),
@@ -436,6 +440,11 @@ macro_rules! level {
                         note(obs, &g);
                         $next(g, ops, i + 1, obs)
                     }
+                    "dfltl" => {
+                        let g = g.with_completion(completion::default(RT.emitter(), RT.ctxt()).with_lvl(Level::Info));
+                        note(obs, &g);
+                        $next(g, ops, i + 1, obs)
+                    }
                     "dfltL" => {
                         let g = g.with_completion(
                             completion::default(RT.emitter(), RT.ctxt()).with_lvl(Level::Info).with_panic_lvl(Level::Warn),
@@ -491,8 +500,12 @@ fn run_typed(case: &Value, via_macro: bool, obs: &mut Obs) {
     match (comp, via_macro) {
         ("rec1", false) => go!(new!(rec_typed("rec1"))),
         ("dflt", false) => go!(new!(completion::default(RT.emitter(), RT.ctxt()))),
+        ("dfltl", false) => go!(new!(completion::default(RT.emitter(), RT.ctxt()).with_lvl(Level::Info))),
+        ("dfltp", false) => go!(new!(completion::default(RT.emitter(), RT.ctxt()).with_panic_lvl(Level::Warn))),
         ("dfltL", false) => go!(new!(completion::default(RT.emitter(), RT.ctxt()).with_lvl(Level::Info).with_panic_lvl(Level::Warn))),
         ("dflt", true) => go!(emit::new_span!(rt: RT, mdl: emit::Path::new_raw("m0"), "n0", a: 0)),
+        ("dfltl", true) => go!(emit::new_info_span!(rt: RT, mdl: emit::Path::new_raw("m0"), "n0", a: 0)),
+        ("dfltp", true) => go!(emit::new_span!(rt: RT, mdl: emit::Path::new_raw("m0"), panic_lvl: emit::Level::Warn, "n0", a: 0)),
         ("dfltL", true) => go!(emit::new_info_span!(rt: RT, mdl: emit::Path::new_raw("m0"), panic_lvl: emit::Level::Warn, "n0", a: 0)),
         _ => tool_error(&format!("typed chain: completion kind {comp}")),
     }
@@ -581,14 +594,14 @@ fn plain_body(exit: &str) -> Option<u32> {
 macro_rules! plain_fixtures {
     ($sync:ident, $asyn:ident, #[$($attr:tt)*]) => {
         #[$($attr)*]
-        fn $sync(exit: &str) -> u32 {
+        pub(crate) fn $sync(exit: &str) -> u32 {
             if let Some(v) = plain_body(exit) {
                 return v;
             }
             2
         }
         #[$($attr)*]
-        async fn $asyn(exit: &str) -> u32 {
+        pub(crate) async fn $asyn(exit: &str) -> u32 {
             YieldOnce(false).await;
             if let Some(v) = plain_body(exit) {
                 return v;
@@ -599,13 +612,11 @@ macro_rules! plain_fixtures {
     };
 }
 
-plain_fixtures!(plain_dflt, plain_dflt_async, #[emit::span(rt: RT, mdl: emit::Path::new_raw("m0"), "n0", a: 0)]);
-plain_fixtures!(plain_dfltl, plain_dfltl_async, #[emit::info_span(rt: RT, mdl: emit::Path::new_raw("m0"), panic_lvl: emit::Level::Warn, "n0", a: 0)]);
 
 macro_rules! result_fixtures {
     ($sync:ident, $asyn:ident, #[$($attr:tt)*]) => {
         #[$($attr)*]
-        fn $sync(exit: &str) -> Result<u32, std::io::Error> {
+        pub(crate) fn $sync(exit: &str) -> Result<u32, std::io::Error> {
             note_ids();
             CUR_OP.store(2, SeqCst);
             match exit {
@@ -620,7 +631,7 @@ macro_rules! result_fixtures {
             Ok(2)
         }
         #[$($attr)*]
-        async fn $asyn(exit: &str) -> Result<u32, std::io::Error> {
+        pub(crate) async fn $asyn(exit: &str) -> Result<u32, std::io::Error> {
             YieldOnce(false).await;
             note_ids();
             CUR_OP.store(2, SeqCst);
@@ -639,13 +650,11 @@ macro_rules! result_fixtures {
     };
 }
 
-result_fixtures!(result_dflt, result_dflt_async, #[emit::span(rt: RT, mdl: emit::Path::new_raw("m0"), ok_lvl: emit::Level::Debug, err_lvl: emit::Level::Warn, "n0", a: 0)]);
-result_fixtures!(result_dfltl, result_dfltl_async, #[emit::info_span(rt: RT, mdl: emit::Path::new_raw("m0"), ok_lvl: emit::Level::Debug, err_lvl: emit::Level::Warn, panic_lvl: emit::Level::Warn, "n0", a: 0)]);
 
 macro_rules! guard_fixtures {
     ($sync:ident, $asyn:ident, $g:ident, #[$($attr:tt)*]) => {
         #[$($attr)*]
-        fn $sync(ops: &[Value], obs: &mut Obs) {
+        pub(crate) fn $sync(ops: &[Value], obs: &mut Obs) {
             note_ids();
             // New and Start were performed by the expansion
             for _ in 0..2 {
@@ -656,7 +665,7 @@ macro_rules! guard_fixtures {
             run_ops($g, ops, 2, None, obs);
         }
         #[$($attr)*]
-        async fn $asyn(ops: &[Value], obs: &mut Obs) {
+        pub(crate) async fn $asyn(ops: &[Value], obs: &mut Obs) {
             YieldOnce(false).await;
             note_ids();
             for _ in 0..2 {
@@ -670,8 +679,6 @@ macro_rules! guard_fixtures {
     };
 }
 
-guard_fixtures!(guard_dflt, guard_dflt_async, g, #[emit::span(rt: RT, mdl: emit::Path::new_raw("m0"), guard: g, "n0", a: 0)]);
-guard_fixtures!(guard_dfltl, guard_dfltl_async, g, #[emit::info_span(rt: RT, mdl: emit::Path::new_raw("m0"), guard: g, panic_lvl: emit::Level::Warn, "n0", a: 0)]);
 
 // `setup:` - the function runs before the span is created, the value it returns is dropped
 // after the body's frame returned (after the completion)
@@ -685,8 +692,6 @@ fn do_setup() -> SetupGuard {
     mark("setup");
     SetupGuard
 }
-plain_fixtures!(setup_dflt, setup_dflt_async, #[emit::span(rt: RT, mdl: emit::Path::new_raw("m0"), setup: do_setup, "n0", a: 0)]);
-plain_fixtures!(setup_dfltl, setup_dfltl_async, #[emit::info_span(rt: RT, mdl: emit::Path::new_raw("m0"), setup: do_setup, panic_lvl: emit::Level::Warn, "n0", a: 0)]);
 
 // `err:` - the function's error type is not an error; the mapper hands out the one inside
 struct Opaque(std::io::Error);
@@ -700,7 +705,7 @@ fn fail_m() -> Result<u32, Opaque> {
 macro_rules! resultm_fixtures {
     ($sync:ident, $asyn:ident, #[$($attr:tt)*]) => {
         #[$($attr)*]
-        fn $sync(exit: &str) -> Result<u32, Opaque> {
+        pub(crate) fn $sync(exit: &str) -> Result<u32, Opaque> {
             note_ids();
             CUR_OP.store(2, SeqCst);
             match exit {
@@ -715,7 +720,7 @@ macro_rules! resultm_fixtures {
             Ok(2)
         }
         #[$($attr)*]
-        async fn $asyn(exit: &str) -> Result<u32, Opaque> {
+        pub(crate) async fn $asyn(exit: &str) -> Result<u32, Opaque> {
             YieldOnce(false).await;
             note_ids();
             CUR_OP.store(2, SeqCst);
@@ -733,8 +738,31 @@ macro_rules! resultm_fixtures {
         }
     };
 }
-resultm_fixtures!(resultm_dflt, resultm_dflt_async, #[emit::span(rt: RT, mdl: emit::Path::new_raw("m0"), ok_lvl: emit::Level::Debug, err_lvl: emit::Level::Warn, err: map_err, "n0", a: 0)]);
-resultm_fixtures!(resultm_dfltl, resultm_dfltl_async, #[emit::info_span(rt: RT, mdl: emit::Path::new_raw("m0"), ok_lvl: emit::Level::Debug, err_lvl: emit::Level::Warn, panic_lvl: emit::Level::Warn, err: map_err, "n0", a: 0)]);
+
+/// All attribute forms for one combination of the span's level (absent: #[span], present:
+/// #[info_span]) and `panic_lvl` (absent / present), i.e. the default completions dflt,
+/// dfltl, dfltp, dfltL of the specification.  Result forms: ok_lvl and err_lvl each absent
+/// or present; the `err:` mapper with and without levels.
+macro_rules! base_mod {
+    ($m:ident, $span:ident, [$($extra:tt)*]) => {
+        #[allow(non_snake_case)]
+        mod $m {
+            use super::*;
+            plain_fixtures!(plain, plain_async, #[emit::$span(rt: RT, mdl: emit::Path::new_raw("m0"), $($extra)* "n0", a: 0)]);
+            plain_fixtures!(setup, setup_async, #[emit::$span(rt: RT, mdl: emit::Path::new_raw("m0"), setup: do_setup, $($extra)* "n0", a: 0)]);
+            result_fixtures!(result, result_async, #[emit::$span(rt: RT, mdl: emit::Path::new_raw("m0"), ok_lvl: emit::Level::Debug, err_lvl: emit::Level::Warn, $($extra)* "n0", a: 0)]);
+            result_fixtures!(result_o, result_o_async, #[emit::$span(rt: RT, mdl: emit::Path::new_raw("m0"), ok_lvl: emit::Level::Debug, $($extra)* "n0", a: 0)]);
+            result_fixtures!(result_e, result_e_async, #[emit::$span(rt: RT, mdl: emit::Path::new_raw("m0"), err_lvl: emit::Level::Warn, $($extra)* "n0", a: 0)]);
+            resultm_fixtures!(resultm, resultm_async, #[emit::$span(rt: RT, mdl: emit::Path::new_raw("m0"), ok_lvl: emit::Level::Debug, err_lvl: emit::Level::Warn, err: map_err, $($extra)* "n0", a: 0)]);
+            resultm_fixtures!(resultm_m, resultm_m_async, #[emit::$span(rt: RT, mdl: emit::Path::new_raw("m0"), err: map_err, $($extra)* "n0", a: 0)]);
+            guard_fixtures!(guard, guard_async, g, #[emit::$span(rt: RT, mdl: emit::Path::new_raw("m0"), guard: g, $($extra)* "n0", a: 0)]);
+        }
+    };
+}
+base_mod!(dflt, span, []);
+base_mod!(dfltl, info_span, []);
+base_mod!(dfltp, span, [panic_lvl: emit::Level::Warn,]);
+base_mod!(dfltL, info_span, [panic_lvl: emit::Level::Warn,]);
 
 /// `emit::new_span!` and manual handling of the guard: nothing is automatic, the
 /// operations (type-keeping ones, any order) run inside the frame - `Frame::call` or
@@ -762,6 +790,8 @@ fn run_newspan(case: &Value, asyn: bool, obs: &mut Obs) {
     }
     match ops[0]["a"].as_str().unwrap() {
         "dflt" => go!(emit::new_span!(rt: RT, mdl: emit::Path::new_raw("m0"), "n0", a: 0)),
+        "dfltl" => go!(emit::new_info_span!(rt: RT, mdl: emit::Path::new_raw("m0"), "n0", a: 0)),
+        "dfltp" => go!(emit::new_span!(rt: RT, mdl: emit::Path::new_raw("m0"), panic_lvl: emit::Level::Warn, "n0", a: 0)),
         "dfltL" => go!(emit::new_info_span!(rt: RT, mdl: emit::Path::new_raw("m0"), panic_lvl: emit::Level::Warn, "n0", a: 0)),
         c => tool_error(&format!("new_span! with completion kind {c}")),
     }
@@ -772,8 +802,7 @@ fn run_macro(case: &Value, asyn: bool, obs: &mut Obs) {
     let ops = case["ops"].as_array().unwrap();
     let comp = ops[0]["a"].as_str().unwrap();
     let form = case["form"].as_str().unwrap();
-    let l = comp == "dfltL";
-    if comp != "dflt" && comp != "dfltL" {
+    if !["dflt", "dfltl", "dfltp", "dfltL"].contains(&comp) {
         tool_error("macro form with a non-default completion");
     }
     if form == "newspan" {
@@ -785,62 +814,64 @@ fn run_macro(case: &Value, asyn: bool, obs: &mut Obs) {
         // the expansion cannot be stopped between New and Start
         return;
     }
+    /// the fixtures of one base module
+    macro_rules! in_base {
+        ($m:ident, $exit:expr) => {{
+            let want_ok = $exit == "ok" || $exit == "early_ok";
+            // the function's own result must pass through unchanged
+            macro_rules! res {
+                ($f:ident, $fa:ident) => {{
+                    let r = if asyn { block_on($m::$fa($exit)).is_ok() } else { $m::$f($exit).is_ok() };
+                    if r != want_ok {
+                        panic!("fixture result altered by the expansion");
+                    }
+                }};
+            }
+            match form {
+                "guard" => {
+                    if asyn {
+                        block_on($m::guard_async(ops, obs))
+                    } else {
+                        $m::guard(ops, obs)
+                    }
+                }
+                "plain" => {
+                    let _ = if asyn { block_on($m::plain_async($exit)) } else { $m::plain($exit) };
+                }
+                "setup" => {
+                    let _ = if asyn { block_on($m::setup_async($exit)) } else { $m::setup($exit) };
+                }
+                "result" => res!(result, result_async),
+                "result_o" => res!(result_o, result_o_async),
+                "result_e" => res!(result_e, result_e_async),
+                "resultM" => res!(resultm, resultm_async),
+                "resultM_m" => res!(resultm_m, resultm_m_async),
+                f => tool_error(&format!("unknown form {f}")),
+            }
+        }};
+    }
+    macro_rules! dispatch {
+        ($exit:expr) => {
+            match comp {
+                "dflt" => in_base!(dflt, $exit),
+                "dfltl" => in_base!(dfltl, $exit),
+                "dfltp" => in_base!(dfltp, $exit),
+                _ => in_base!(dfltL, $exit),
+            }
+        };
+    }
     if form == "guard" {
-        match (l, asyn) {
-            (false, false) => guard_dflt(ops, obs),
-            (false, true) => block_on(guard_dflt_async(ops, obs)),
-            (true, false) => guard_dfltl(ops, obs),
-            (true, true) => block_on(guard_dfltl_async(ops, obs)),
-        }
+        dispatch!("");
         return;
     }
-    // plain / result: New; Start; [terminal named by the exit path]
+    // plain / setup / result forms: New; Start; [terminal named by the exit path]
     let exit = if ops.len() > 2 { ops[2]["x"].as_str().unwrap() } else { "" };
     if ops.len() == 2 {
         // the line ends after Start: the fixture cannot stop there; nothing to decide
         // beyond what the line with the terminal operation decides
         return;
     }
-    let r = std::panic::catch_unwind(std::panic::AssertUnwindSafe(|| {
-        if form == "plain" {
-            match (l, asyn) {
-                (false, false) => plain_dflt(exit),
-                (false, true) => block_on(plain_dflt_async(exit)),
-                (true, false) => plain_dfltl(exit),
-                (true, true) => block_on(plain_dfltl_async(exit)),
-            };
-        } else if form == "setup" {
-            match (l, asyn) {
-                (false, false) => setup_dflt(exit),
-                (false, true) => block_on(setup_dflt_async(exit)),
-                (true, false) => setup_dfltl(exit),
-                (true, true) => block_on(setup_dfltl_async(exit)),
-            };
-        } else if form == "resultM" {
-            let r = match (l, asyn) {
-                (false, false) => resultm_dflt(exit),
-                (false, true) => block_on(resultm_dflt_async(exit)),
-                (true, false) => resultm_dfltl(exit),
-                (true, true) => block_on(resultm_dfltl_async(exit)),
-            };
-            let want_ok = exit == "ok" || exit == "early_ok";
-            if r.is_ok() != want_ok {
-                panic!("fixture result altered by the expansion");
-            }
-        } else {
-            let r = match (l, asyn) {
-                (false, false) => result_dflt(exit),
-                (false, true) => block_on(result_dflt_async(exit)),
-                (true, false) => result_dfltl(exit),
-                (true, true) => block_on(result_dfltl_async(exit)),
-            };
-            // the function's own result must pass through unchanged
-            let want_ok = exit == "ok" || exit == "early_ok";
-            if r.is_ok() != want_ok {
-                panic!("fixture result altered by the expansion");
-            }
-        }
-    }));
+    let r = std::panic::catch_unwind(std::panic::AssertUnwindSafe(|| dispatch!(exit)));
     if let Err(e) = r {
         if !(e.is::<Boom>() && exit == "panic") {
             std::panic::resume_unwind(e);
@@ -1002,7 +1033,7 @@ fn decide(case: &Value, rep: &mut Report, t: &mut Tally) {
         variants.push(("guard", 0, false));
         if t.typed {
             variants.push(("typed", 1, false));
-            if comp == "dflt" || comp == "dfltL" {
+            if comp.starts_with("dflt") {
                 variants.push(("typed-new_span!", 2, false));
             }
         }
